@@ -150,6 +150,7 @@ func c03Materialise(calls []c03call, oldRoot, newRoot string, choice int) {
 		synced int
 	}
 	live := map[string]*fstate{}
+	os.MkdirAll(newRoot, 0o700) // the store's root directory existed before the history began
 	mv := func(p string) string { return filepath.Join(newRoot, strings.TrimPrefix(p, oldRoot)) }
 	for _, c := range calls {
 		switch c.kind {
